@@ -1146,7 +1146,16 @@ impl RefAllpass {
 const FV_COMBS: [u64; 8] = [1116, 1188, 1277, 1356, 1422, 1491, 1557, 1617];
 const FV_ALLPASSES: [u64; 4] = [556, 441, 341, 225];
 const FV_SPREAD: u64 = 23;
+/// the line length kira derives from a reference tuning: the binary64 product `tuning * (sr / 44100)` truncated.
+/// At every standard device rate this is floor(tuning * sr / 44100) (Coq: C14 ProofsFreeverb / C16
+/// `reverb_line_exact_standard_rates`); at a few unusual rates (e.g. 48600 Hz: 441 * 1.1020408163265305 =
+/// 485.99999999999994) the product falls one frame short of the exact quotient (C16
+/// `reverb_line_f64_one_frame_short`, recorded in DESIGN 10.2 as observed, within the one-frame bound).  The
+/// reference network is the cited Freeverb topology with THESE lengths; the exact quotient is counted beside it.
 fn fv_len(tuning: u64, sr: u32) -> usize {
+	(((tuning as f64) * (sr as f64 / 44100.0)) as usize).max(1)
+}
+fn fv_len_exact(tuning: u64, sr: u32) -> usize {
 	((tuning * sr as u64 / 44100) as usize).max(1)
 }
 fn ref_freeverb(sr: u32, fb: f64, damp: f64, width: f64, mix: f32, input: &[Frame]) -> Vec<(f64, f64)> {
@@ -1222,6 +1231,17 @@ fn sec_reverb(s: &mut Session, cx: &Ctx, rng: &mut Rng, n_cases: usize, n_ref: u
 		let desc = format!("{:?} @ {} Hz", d, sr);
 		let Some(out) = run_ok(s, cx, &d, sr, &input) else { continue };
 		s.eval_only("mon_reverb_vs_reference");
+		// kira's scaling rule against the exact quotient: equal at the standard rates, never more than one frame short
+		for t in FV_COMBS.iter().chain(FV_ALLPASSES.iter()).flat_map(|t| [*t, *t + FV_SPREAD]) {
+			let (a, b) = (fv_len(t, sr), fv_len_exact(t, sr));
+			if a != b {
+				s.count("reverb_line_one_frame_short_of_exact_quotient");
+				let standard = [8000u32, 11025, 16000, 22050, 32000, 44100, 48000, 88200, 96000, 176400, 192000].contains(&sr);
+				if standard || a + 1 != b {
+					s.fail(desc.clone(), format!("line for tuning {t}: the binary64 product gives {a} frames, floor(tuning * rate / 44100) = {b}"), None);
+				}
+			}
+		}
 		let reference = ref_freeverb(sr, fb, damp, width, mix, &input);
 		let peak = reference.iter().map(|p| p.0.abs().max(p.1.abs())).fold(1e-9, f64::max);
 		for j in 0..n {
@@ -1290,14 +1310,35 @@ fn sec_reverb(s: &mut Session, cx: &Ctx, rng: &mut Rng, n_cases: usize, n_ref: u
 /// gain change in dB per frame measured on the implementation: output / input on a constant-level signal
 fn sec_compressor(s: &mut Session, cx: &Ctx, rng: &mut Rng, n_cfg: usize) {
 	let mut worst_db = 0.0f64;
-	for i in 0..n_cfg {
-		let sr = gen_sr(rng);
+	// fixed corpus, identical on every run (own generator): slow attacks and small overshoots, where one attack step
+	// from rest is far below a thousandth of a decibel (over / (attack * rate)): the follower must still converge
+	// (sr, threshold, ratio, attack us, release us, make-up, overshoot dB)
+	const SLOW: [(u32, f64, f64, u64, u64, f32, f64); 4] = [
+		(48_000, -12.0, 4.0, 200_000, 100_000, 0.0, 3.0),
+		(192_000, -20.0, 2.0, 30_000, 50_000, 0.0, 4.0),
+		(44_100, -6.0, 10.0, 100_000, 300_000, 3.0, 1.5),
+		(96_000, -30.0, 1.5, 500_000, 20_000, 0.0, 6.0),
+	];
+	let mut fixed_rng = Rng::new(0xC14_510);
+	for i in 0..SLOW.len() + n_cfg {
+		let fixed = SLOW.get(i).copied();
+		let rng: &mut Rng = if fixed.is_some() { &mut fixed_rng } else { &mut *rng };
+		let (sr, thr, ratio, att, rel, mk) = match fixed {
+			Some((sr, thr, ratio, att, rel, mk, _)) => (sr, thr, ratio, Duration::from_micros(att), Duration::from_micros(rel), mk),
+			None => {
+				let sr = gen_sr(rng);
+				let thr = -(6.0 + rng.unit_f64() * 34.0);
+				let ratio = *rng.pick(&[2.0, 4.0, 8.0, 1.5, 20.0, 3.0]);
+				// one configuration in four has a slow attack (up to half a second)
+				// (kept short enough for six time constants to fit into the 400 000 frames rendered below)
+				let slow_max = ((400_000.0 / (6.5 * sr as f64)) * 1e6).min(500_000.0).max(30_001.0) as i64;
+				let att = Duration::from_micros(if i % 4 == 3 { rng.range(30_000, slow_max) } else { rng.range(200, 30_000) } as u64);
+				let rel = Duration::from_micros(rng.range(5_000, 300_000) as u64);
+				let mk = if i % 2 == 0 { 0.0 } else { (-6.0 + rng.unit_f64() * 12.0) as f32 };
+				(sr, thr, ratio, att, rel, mk)
+			}
+		};
 		let dt = 1.0 / sr as f64;
-		let thr = -(6.0 + rng.unit_f64() * 34.0);
-		let ratio = *rng.pick(&[2.0, 4.0, 8.0, 1.5, 20.0, 3.0]);
-		let att = Duration::from_micros(rng.range(200, 30_000) as u64);
-		let rel = Duration::from_micros(rng.range(5_000, 300_000) as u64);
-		let mk = if i % 2 == 0 { 0.0 } else { (-6.0 + rng.unit_f64() * 12.0) as f32 };
 		let d = Comp { thr, ratio, att, rel, mk, mix: 1.0 };
 		let desc = format!("{:?} @ {} Hz", d, sr);
 		let mkg = 10f64.powf(mk as f64 / 20.0);
@@ -1316,7 +1357,10 @@ fn sec_compressor(s: &mut Session, cx: &Ctx, rng: &mut Rng, n_cfg: usize) {
 			}
 		}
 		// --- constant level above the threshold (attack), then a lower level (release)
-		let l1 = thr + 3.0 + rng.unit_f64() * (-thr - 3.0).max(1.0); // dB, above the threshold, at most ~0 dBFS
+		let l1 = match fixed {
+			Some(f) => thr + f.6,
+			None => thr + 3.0 + rng.unit_f64() * (-thr - 3.0).max(1.0), // dB, above the threshold, at most ~0 dBFS
+		};
 		let l2 = if i % 2 == 0 { thr - 10.0 } else { thr + (l1 - thr) * 0.3 };
 		let (a1, a2) = (10f64.powf(l1 / 20.0) as f32, 10f64.powf(l2 / 20.0) as f32);
 		let n1 = ((att.as_secs_f64() * 6.0 / dt) as usize).clamp(200, 400_000);
